@@ -223,7 +223,7 @@ impl Property for C11 {
     fn check(&self, case: &Case, st: &mut Stats) -> Result<(), String> {
         match case {
             Case::Hist(h) => {
-                if matches!(h.fam, FamId::Var | FamId::Wide | FamId::Tiny | FamId::Mid | FamId::Nano | FamId::Big | FamId::Clash) {
+                if matches!(h.fam, FamId::Var | FamId::Wide | FamId::Tiny | FamId::Mid | FamId::Nano | FamId::Big | FamId::Clash | FamId::Null) {
                     return Ok(());
                 }
                 let mut v = V { st, n: 0, stop: false };
